@@ -910,41 +910,142 @@ def helpers(ck):
     ck.section("helpers", done=True)
 
 
+OPTIMIZERS = ["simplex", "powell", "cg", "bfgs", "steepest"]
+OPT_SIMS = ["cc", "cr", "crl1", "mi", "nmi"]
+
+
 def optimize(ck):
+    """Optimisation clause.  For every optimizer the class supports x similarity measure x {default callback,
+    user callback} x {VERBOSE on, off} x {start already optimal with non-zero parameters, perturbed start}:
+      * the returned transform's similarity is not lower than that of the starting transform;
+      * the returned transform carries exactly the parameter vector the optimiser RETURNED (captured by wrapping
+        `configure_optimizer` in the module at run time), not e.g. the last point the cost function saw;
+      * the optimiser contract assumed by `optimize_not_worse_partial` (returned point not worse than x0) holds."""
+    import contextlib
+    import functools
+    import io
     import nipy.algorithms.registration.histogram_registration as hr
-    from nipy.algorithms.registration.affine import Affine, Rigid
+    from nipy.algorithms.registration.affine import Rigid
     from nipy.core.api import Image, vox2mni
-    hr.VERBOSE = False
     rng = ck.rng("optimize")
-    for n in range(ck.n(6, 30)):
-        shape = (6, 6, 6)
-        g = np.indices(shape).astype(float)
-        dat = np.floor(4 * np.exp(-((g[0] - 2.5) ** 2 + (g[1] - 3) ** 2 / 2 + (g[2] - 2) ** 2) / 6.0) * 4) + rng.integers(0, 2, size=shape)
-        shift = np.eye(4)
-        shift[:3, 3] = rng.integers(-1, 2, size=3) * 0.5
-        fim = Image(dat, vox2mni(np.eye(4)))
-        tim = Image(dat, vox2mni(shift))
-        sim = ["cr", "crl1", "cc", "mi"][n % 4]
-        opt = ["powell", "simplex", "cg"][n % 3]
-        interp = ["pv", "tri"][n % 2]
-        R = hr.HistogramRegistration(fim, tim, from_bins=8, similarity=sim, interp=interp)
-        T0 = Rigid()
-        s0 = R.eval(T0)
-        try:
-            import contextlib
-            import io
+    rec = {}
+    orig_cfg = hr.configure_optimizer
+    orig_verbose = hr.VERBOSE
+
+    def cfg(optimizer, **kw):
+        fmin, args, kwargs = orig_cfg(optimizer, **kw)
+
+        @functools.wraps(fmin)
+        def wrapped(cost, x0, *a, **k):
+            evals = []
+
+            def c(x):
+                v = cost(x)
+                evals.append(np.array(x, dtype=float).copy())
+                return v
+            r = fmin(c, x0, *a, **k)
+            rec["ret"] = np.array(r, dtype=float).copy()
+            rec["evals"] = evals
+            rec["x0"] = np.array(x0, dtype=float).copy()
+            return r
+        return wrapped, args, kwargs
+
+    # tiny smooth volume; the `to` image is the same anatomy with a shifted world origin
+    shape = (7, 8, 6)
+    g = np.indices(shape).astype(float)
+    base = np.floor(6 * np.exp(-((g[0] - 3) ** 2 / 5 + (g[1] - 3.5) ** 2 / 8 + (g[2] - 2) ** 2 / 4))
+                    + 2 * np.sin(g[0] + 0.5 * g[1]) ** 2 + g[2] / 3)
+    combos = [(cb, vb, st) for cb in (False, True) for vb in (True, False) for st in ("optimal", "perturbed")]
+    runs = []
+    if ck.thorough():
+        for opt in OPTIMIZERS:
+            for sim in OPT_SIMS:
+                for cmb in combos:
+                    runs.append((opt, sim) + cmb)
+    else:
+        k = 0
+        for opt in OPTIMIZERS:
+            for j, cmb in enumerate(combos):          # every optimizer sees all 8 settings, measures rotate
+                for rep in range(2):
+                    runs.append((opt, OPT_SIMS[k % len(OPT_SIMS)]) + cmb)
+                    k += 1
+    hr.configure_optimizer = cfg
+    try:
+        for n, (opt, sim, user_cb, verbose, start) in enumerate(runs):
+            dat = base + rng.integers(0, 2, size=shape)
+            shift = np.eye(4)
+            shift[:3, 3] = [float(v) for v in rng.integers(-1, 2, size=3)]
+            if not shift[:3, 3].any():
+                shift[0, 3] = 1.0
+            fim = Image(dat, vox2mni(np.eye(4)))
+            tim = Image(dat, vox2mni(shift))
+            interp = ["pv", "tri"][n % 2]
+            hr.VERBOSE = verbose
+            T0 = Rigid()
+            T0.translation = shift[:3, 3].copy()       # exact solution, non-zero parameters
+            if start == "perturbed":
+                T0.translation = shift[:3, 3] + np.array([0.4, -0.3, 0.2])
+                T0.rotation = np.array([0.02, -0.01, 0.015])
+            seen = []
+            kw = {"maxiter": 40, "maxfun": 120} if opt == "simplex" else {"maxiter": 2, "maxfun": 150}
+            if user_cb:
+                kw["callback"] = lambda tc: seen.append(1)
+            replay = {"optimizer": opt, "similarity": sim, "interp": interp, "user_callback": user_cb, "VERBOSE": verbose,
+                      "start": start, "start_param": T0.param.tolist(), "from=to data": dat.tolist(),
+                      "to_affine": shift.tolist(), "kwargs": {k: v for k, v in kw.items() if k != "callback"},
+                      "call": "HistogramRegistration(I, J, from_bins=8, similarity, interp).optimize(Rigid(start), optimizer, **kwargs)"}
+            rec.clear()
+            try:
+                with contextlib.redirect_stdout(io.StringIO()):
+                    R = hr.HistogramRegistration(fim, tim, from_bins=8, similarity=sim, interp=interp)
+                    s0 = float(R.eval(T0))
+                    T = R.optimize(T0.copy(), optimizer=opt, **kw)
+                    s1 = float(R.eval(T))
+            except Exception as e:  # noqa
+                ck.fail("optimize/raises/%s" % opt, "optimize raised %s: %s" % (type(e).__name__, e), replay)
+                continue
+            ck.count(("opt", n, opt, sim, user_cb, verbose, start), nontrivial=True,
+                     bucket="optimize:%s:%s" % (opt, start))
+            if "ret" not in rec:
+                ck.fail("optimize/optimizer-not-called/%s" % opt, "optimize did not run the optimiser returned by configure_optimizer", replay)
+                continue
+            T2 = T0.copy()
+            T2.param = rec["ret"]
             with contextlib.redirect_stdout(io.StringIO()):
-                T = R.optimize(Rigid(), optimizer=opt, maxiter=3, maxfun=60)
-        except Exception as e:  # noqa
-            ck.fail("optimize/raises", "optimize raised %s: %s" % (type(e).__name__, e), {"similarity": sim, "optimizer": opt})
-            continue
-        s1 = R.eval(T)
-        ck.count(("opt", n), nontrivial=True, bucket="optimize:%s" % opt)
-        if not s1 >= s0 - 1e-12:
-            ck.fail("optimize/worse-than-start/%s" % opt, "optimize(%s, %s, %s) returned similarity %r < starting similarity %r" % (sim, opt, interp, s1, s0),
-                    {"similarity": sim, "optimizer": opt, "interp": interp, "data": dat.tolist(), "to_affine": shift.tolist(), "start": s0, "result": s1})
-    ck.section("optimize", done=True)
-    ck.trust.append("scipy.optimize (fmin_powell / fmin / fmin_cg) is an oracle: only the sampled contract 'returned point not worse than the start' is checked")
+                s_ret = float(R.eval(T2))
+            replay.update(start_similarity=s0, result_similarity=s1, result_param=np.asarray(T.param).tolist(),
+                          optimizer_returned=rec["ret"].tolist(), similarity_at_optimizer_return=s_ret,
+                          cost_evaluations=len(rec["evals"]),
+                          last_evaluated=rec["evals"][-1].tolist() if rec["evals"] else None)
+            if not np.array_equal(np.asarray(T.param), np.asarray(T2.param)):
+                last = rec["evals"] and np.array_equal(np.asarray(T.param), np.asarray(_with_param(T0, rec["evals"][-1]).param))
+                ck.fail("optimize/result-is-not-optimizer-return/%s" % ("user-callback" if user_cb else ("verbose" if verbose else "silent")),
+                        "optimize(%s, %s): the returned transform has parameters %s but the optimiser returned %s%s; similarity %r vs %r at the optimiser's point (start %r)"
+                        % (opt, sim, np.asarray(T.param).tolist(), np.asarray(T2.param).tolist(),
+                           " (it carries the LAST point the cost function evaluated)" if last else "", s1, s_ret, s0), replay)
+            if not s1 >= s0 - 1e-12:
+                ck.fail("optimize/worse-than-start/%s" % start,
+                        "optimize(%s, %s, %s, user callback=%s, VERBOSE=%s) from a %s start returned similarity %r < starting similarity %r"
+                        % (opt, sim, interp, user_cb, verbose, start, s1, s0), replay)
+            if not s_ret >= s0 - 1e-12:
+                ck.fail("optimize/optimizer-contract/%s" % opt,
+                        "oracle contract violated: %s returned a point with similarity %r < similarity at x0 %r" % (opt, s_ret, s0), replay)
+            if n == 5:
+                ck.sample({"section": "optimize", **{k: replay[k] for k in ("optimizer", "similarity", "interp", "user_callback", "VERBOSE", "start", "start_similarity", "result_similarity")}})
+    finally:
+        hr.configure_optimizer = orig_cfg
+        hr.VERBOSE = orig_verbose
+    ck.section("optimize", runs=len(runs), optimizers=OPTIMIZERS, similarities=OPT_SIMS,
+               settings="callback {default,user} x VERBOSE {on,off} x start {optimal non-zero, perturbed}")
+    ck.trust.append("scipy.optimize (fmin, fmin_powell, fmin_cg, fmin_bfgs) and nipy fmin_steepest are oracles: the contract "
+                    "'returned point not worse than x0' assumed by optimize_not_worse_partial is sampled on every run "
+                    "(optimize/optimizer-contract)")
+
+
+def _with_param(T, p):
+    T2 = T.copy()
+    T2.param = p
+    return T2
 
 
 def run(ck):
